@@ -52,7 +52,7 @@ def run(rep, tier):
         "window.start, window.end}; only combinations denoting whole pairs under the half-open convention are "
         "accepted. Guard rule: every site needing start < end is matched with an enclosing if, a preceding "
         "early return, or `peek()?` (whose summary is derived from its body).")
-    configs = ["default", "pestall"]
+    configs = rep.cfgs(["default", "pestall"])
     rep.configs = configs
     for cfg in configs:
         c = facts.facts(cfg).crate("pest")
